@@ -151,8 +151,7 @@ Theorem C19_list_alloc_total_safe_current :
 Proof. exact list_alloc_safe_current. Qed.
 Print Assumptions C19_list_alloc_total_safe_current.
 
-(* ---- loading an uncompressed page body by the header's sizes (column/page_reader.rs; NOT repaired: known classes
-   page-size-copy-mismatch, page-size-arith-overflow) *)
+(* ---- loading an uncompressed page body by the header's sizes (column/page_reader.rs; repaired by f3bd995b4: checked_page_sizes) *)
 Theorem C19_page_load_total_safe_if_checked : forall chunk_len off usz csz,
   is_i32 usz -> is_i32 csz -> chunk_len < 2 ^ 64 ->
   out_clean (p_out (load_page_plain true chunk_len off usz csz)) /\
@@ -190,6 +189,49 @@ Theorem C19_page_load_verdict_current :
 Proof. exact page_load_verdict_current. Qed.
 Print Assumptions C19_page_load_verdict_current.
 
+(* ---- fetching a column chunk (reader.rs), and the safe side for the current source after repair f3bd995b4 *)
+Theorem C19_fetch_chunk_total_safe_if_checked : forall file_size start len,
+  out_clean (p_out (fetch_chunk true file_size start len)) /\ p_alloc (fetch_chunk true file_size start len) <= file_size.
+Proof. exact fetch_chunk_safe_checked. Qed.
+Print Assumptions C19_fetch_chunk_total_safe_if_checked.
+
+Theorem C19_fetch_chunk_witnesses :
+  fetch_chunk false 227 2147483647 27 = mk_paged TFuel 27 /\
+  fetch_chunk false 227 69 4611686018427387904 = mk_paged TFuel 4611686018427387904 /\
+  fetch_chunk true 227 2147483647 27 = mk_paged TErr 0 /\
+  fetch_chunk true 227 69 4611686018427387904 = mk_paged TErr 0 /\
+  fetch_chunk true 227 69 27 = mk_paged (TOk 27) 27.
+Proof. exact fetch_chunk_witnesses. Qed.
+Print Assumptions C19_fetch_chunk_witnesses.
+
+Theorem C19_fetch_chunk_verdict_current :
+  exists b, TablesFault.chunk_range_checked = Some b /\
+    (if b
+     then forall file_size start len, out_clean (p_out (fetch_chunk b file_size start len)) /\
+                                      p_alloc (fetch_chunk b file_size start len) <= file_size
+     else exists file_size start len, p_out (fetch_chunk b file_size start len) = TFuel).
+Proof. exact fetch_chunk_verdict_current. Qed.
+Print Assumptions C19_fetch_chunk_verdict_current.
+
+Theorem C19_page_and_chunk_checks_present :
+  TablesFault.page_copy_len_checked = Some true /\ TablesFault.chunk_range_checked = Some true.
+Proof. exact page_and_chunk_checks_present. Qed.
+Print Assumptions C19_page_and_chunk_checks_present.
+
+Theorem C19_page_load_total_safe_current :
+  exists b, TablesFault.page_copy_len_checked = Some b /\
+    forall chunk_len off usz csz, is_i32 usz -> is_i32 csz -> chunk_len < 2 ^ 64 ->
+      out_clean (p_out (load_page_plain b chunk_len off usz csz)) /\ p_alloc (load_page_plain b chunk_len off usz csz) <= chunk_len.
+Proof. exact page_load_safe_current. Qed.
+Print Assumptions C19_page_load_total_safe_current.
+
+Theorem C19_fetch_chunk_total_safe_current :
+  exists b, TablesFault.chunk_range_checked = Some b /\
+    forall file_size start len, out_clean (p_out (fetch_chunk b file_size start len)) /\
+                                p_alloc (fetch_chunk b file_size start len) <= file_size.
+Proof. exact fetch_chunk_safe_current. Qed.
+Print Assumptions C19_fetch_chunk_total_safe_current.
+
 (* ---- bit-level helpers of the page decoders (bitutil.rs, rle_bit_packed.rs; models of C10) *)
 Theorem C19_vlq_decode_no_panic : forall bs, vlq_decode bs <> Panic.
 Proof. exact vlq_decode_no_panic. Qed.
@@ -201,9 +243,13 @@ Theorem C19_vlq_decode_oob_iff : forall bs,
 Proof. exact vlq_decode_oob_iff. Qed.
 Print Assumptions C19_vlq_decode_oob_iff.
 
-Theorem C19_bit_unpack_panic_iff : forall tw w n buf pos, bit_unpack tw w n buf pos = Panic <-> 64 < w.
-Proof. exact bit_unpack_panic_iff. Qed.
-Print Assumptions C19_bit_unpack_panic_iff.
+Theorem C19_bit_unpack_no_panic : forall tw w n buf pos, bit_unpack tw w n buf pos <> Panic.
+Proof. exact bit_unpack_no_panic. Qed.
+Print Assumptions C19_bit_unpack_no_panic.
+
+Theorem C19_bit_unpack_wide_err : forall tw w n buf pos, 64 < w -> bit_unpack tw w n buf pos = Err.
+Proof. exact bit_unpack_wide_err. Qed.
+Print Assumptions C19_bit_unpack_wide_err.
 
 Theorem C19_rle_read_no_panic : forall tw n s, r_w s <= 64 -> rle_read tw n s <> Panic.
 Proof. exact rle_read_no_panic. Qed.
@@ -211,11 +257,12 @@ Print Assumptions C19_rle_read_no_panic.
 Example C19_rle_read_no_panic_sat : r_w (rle_new [2; 7] 8) <= 64.
 Proof. discriminate. Qed.
 
-(* DESIGN §5-20: the unchecked cursor reads, closed witnesses (replayed through gv_pq and inside files) *)
+(* DESIGN §5-20: the unchecked cursor reads, closed witnesses (replayed through gv_pq and inside files); the last two
+   (miniblock count 0, width 65) were panics before the repairs 20ef7d280 / 72f92a6f7 and are errors now *)
 Theorem C19_bits_oob_witnesses :
   vlq_decode w_oob_vlq = OOB /\ rle_read 8 1 (rle_new w_oob_rle 8) = OOB /\
   bit_unpack 8 5 2 w_oob_unpack 0 = OOB /\ dbp_decode_split 32 w_oob_dbp [5%nat] = OOB /\
-  dbp_decode_split 32 w_panic_dbp [5%nat] = Panic /\ bit_unpack 8 65 1 [1; 2; 3; 4; 5; 6; 7; 8; 9] 0 = Panic.
+  dbp_decode_split 32 w_panic_dbp [5%nat] = Err /\ bit_unpack 8 65 1 [1; 2; 3; 4; 5; 6; 7; 8; 9] 0 = Err.
 Proof.
   exact (conj w_oob_vlq_oob (conj w_oob_rle_oob (conj w_oob_unpack_oob (conj w_oob_dbp_oob (conj w_panic_dbp_panics w_panic_width))))).
 Qed.
